@@ -289,7 +289,7 @@ def _run_sharded(exe, lines, nshards=NPROC, timeout=3600, env=None, per_shard=20
         try:
             t = timeout if not case_budget else min(timeout, max(20.0, case_budget * len(chunks[i])))
             try:
-                p = subprocess.run([exe], input="\n".join(chunks[i]) + "\n", stdout=subprocess.PIPE,
+                p = subprocess.run(_argv(exe), input="\n".join(chunks[i]) + "\n", stdout=subprocess.PIPE,
                                    stderr=subprocess.DEVNULL, text=True, timeout=t, env=env)
             except subprocess.TimeoutExpired:
                 if not case_budget:
@@ -334,7 +334,7 @@ def _run_one_by_one(exe, lines, env=None, per_case_timeout=20, max_timeouts=None
             res.append("NOTRUN after-%d-timeouts-in-this-shard" % ntimeouts)
             continue
         try:
-            p = subprocess.run([exe], input=ln + "\n", stdout=subprocess.PIPE, stderr=subprocess.DEVNULL,
+            p = subprocess.run(_argv(exe), input=ln + "\n", stdout=subprocess.PIPE, stderr=subprocess.DEVNULL,
                                text=True, timeout=per_case_timeout, env=env)
             o = p.stdout.strip("\n")
             if p.returncode != 0 and not o:
@@ -350,9 +350,16 @@ def run_impl(exe, cases, **kw):
     return _run_sharded(exe, [case_line(c) for c in cases], **kw)
 
 
+def _argv(exe):
+    return [exe] if isinstance(exe, str) else list(exe)
+
+
 def run_model(exe, cases, **kw):
+    """the extracted model recurses non-tail over lists (a vector of 10^6 elements is a list of 10^6 cells): it runs
+    with an unlimited native stack so that sizes the implementation handles do not end in the driver's STACK answer"""
     env = dict(os.environ)
-    return _run_sharded(exe, [case_line(c) for c in cases], env=env, **kw)
+    argv = ["/bin/sh", "-c", 'ulimit -s unlimited 2>/dev/null || ulimit -s 8000000 2>/dev/null; exec "$0"', exe]
+    return _run_sharded(argv, [case_line(c) for c in cases], env=env, **kw)
 
 
 def coq_list(xs):
